@@ -8,6 +8,7 @@
 #include <cstdlib>
 #include <cstring>
 #include <random>
+#include <set>
 #include <string>
 #include <vector>
 
@@ -69,6 +70,45 @@ static ComponentPtr rComponent(const ModelPtr &m, int depth)
     }
     for (int i = 0; i < nc; ++i) c->addComponent(rComponent(m, depth - 1));
     return c;
+}
+
+// The serialisation up to the order in which connections (and the map_variables inside one) are written and which of the two
+// components is written first: a model's equivalences are a set of unordered pairs, and Model::clone() re-creates them in index order.
+static std::string canonical(const std::string &xml)
+{
+    std::string rest;
+    std::multiset<std::string> pairs;
+    size_t pos = 0;
+    while (true) {
+        size_t a = xml.find("  <connection ", pos);
+        if (a == std::string::npos) {
+            rest += xml.substr(pos);
+            break;
+        }
+        rest += xml.substr(pos, a - pos);
+        size_t e = xml.find("</connection>\n", a);
+        if (e == std::string::npos) return xml;
+        std::string block = xml.substr(a, e - a);
+        auto attr = [](const std::string &t, const std::string &name) {
+            size_t p = t.find(" " + name + "=\"");
+            if (p == std::string::npos) return std::string();
+            p += name.size() + 3;
+            return t.substr(p, t.find('"', p) - p);
+        };
+        std::string head = block.substr(0, block.find('\n'));
+        std::string c1 = attr(head, "component_1"), c2 = attr(head, "component_2"), cid = attr(head, "id");
+        size_t m = 0;
+        while ((m = block.find("<map_variables ", m)) != std::string::npos) {
+            std::string line = block.substr(m, block.find('\n', m) - m);
+            std::string x = c1 + "." + attr(line, "variable_1"), y = c2 + "." + attr(line, "variable_2");
+            if (y < x) std::swap(x, y);
+            pairs.insert(x + " ~ " + y + " mapid=" + attr(line, "id") + " connid=" + cid);
+            ++m;
+        }
+        pos = e + strlen("</connection>\n");
+    }
+    for (auto &p : pairs) rest += p + "\n";
+    return rest;
 }
 
 static bool fail(const char *what, const std::string &detail)
@@ -151,7 +191,7 @@ int main(int argc, char **argv)
             std::string after = printer->printModel(m);
             std::string cloned = printer->printModel(mc);
             if (before != after) return fail("Model::clone changed the original's serialisation", before), 0;
-            if (cloned != before) return fail("serialisation of Model::clone differs from the original's", "--- original\n" + before + "--- clone\n" + cloned), 0;
+            if (canonical(cloned) != canonical(before)) return fail("serialisation of Model::clone differs in content from the original's (connections compared as a set)", "--- original\n" + before + "--- clone\n" + cloned), 0;
             if (mc->parent() != nullptr) return fail("model clone has a parent", ""), 0;
             if (!mc->equals(m) || !m->equals(mc)) return fail("model clone does not equal the original", before), 0;
             for (size_t i = 0; i < m->componentCount(); ++i)
